@@ -33,11 +33,25 @@ MANIFEST = dict(
 
 class B64Text:
     """the text produced by base64-encoding `payload` (a Rope / bytes value); behaves as a str without ':'"""
-    def __init__(self, payload, urlsafe):
-        self.payload, self.urlsafe = payload, urlsafe
+    def __init__(self, payload, urlsafe, alpha=None):
+        # alpha: the characters standing for the values 62 and 63 ('+/' standard, '-_' url-safe; a text in which only one of them was
+        # replaced is neither)
+        self.payload = payload
+        self.alpha = alpha or (('-', '_') if urlsafe else ('+', '/'))
+
+    @property
+    def urlsafe(self):
+        return True if self.alpha == ('-', '_') else False if self.alpha == ('+', '/') else None
 
     def abs_key(self):
-        return ('b64text', repr(self.payload), self.urlsafe)
+        return ('b64text', repr(self.payload), self.alpha)
+
+    def remap(self, table):
+        """character substitution: only the two alphabet-dependent characters can be affected in a way the model follows"""
+        others = set(table) - {'+', '/', '-', '_'}
+        if others or any(len(v) != 1 for v in table.values()):
+            raise Fail(f'base64 text: substitution {table} touches characters the model does not track')
+        return B64Text(self.payload, None, tuple(table.get(c, c) for c in self.alpha))
 
     def abs_isinstance(self, it, ty):
         return getattr(ty, 'name', None) == 'str'
@@ -51,6 +65,21 @@ class B64Text:
             return Native(split, 'b64.split')
         if a == 'encode':
             return Native(lambda it_, args, kw, n: self, 'b64.encode')
+        if a == 'translate':
+            def translate(it_, args, kw, n):
+                t = args[0]
+                if not (isinstance(t, K) and isinstance(t.v, dict)):
+                    raise Fail('translate of a base64 text with a symbolic table')
+                return self.remap({chr(k) if isinstance(k, int) else k: (chr(v) if isinstance(v, int) else v) for k, v in t.v.items()})
+            return Native(translate, 'b64.translate')
+        if a == 'replace':
+            def replace(it_, args, kw, n):
+                if not all(isinstance(x, K) and isinstance(x.v, str) for x in args[:2]):
+                    raise Fail('replace on a base64 text with symbolic arguments')
+                return self.remap({args[0].v: args[1].v}) if len(args[0].v) == 1 else self
+            return Native(replace, 'b64.replace')
+        if a in ('strip', 'rstrip', 'lstrip') :
+            return Native(lambda it_, args, kw, n: self if not args else (_ for _ in ()).throw(Fail('strip of a base64 text with arguments')), 'b64.strip')
         return None
 
     def abs_len(self, it):
@@ -72,6 +101,8 @@ def mk_interp(prog, orc=None):
             if last in ('urlsafe_b64decode', 'b64decode'):
                 a = args[0]
                 if isinstance(a, B64Text):
+                    if a.urlsafe is None and last == 'b64decode':
+                        return None
                     if last == 'b64decode' and a.urlsafe:
                         return None
                     p = a.payload
